@@ -22,6 +22,7 @@ import (
 	"github.com/q191201771/lal/pkg/logic"
 	"github.com/q191201771/lal/pkg/rtmp"
 	"github.com/q191201771/lal/pkg/rtsp"
+	"lalverif/proj"
 )
 
 // Driver "lifecycle" (C03, C16, C17): a real logic.ServerManager (no listeners) driven through the
@@ -47,6 +48,8 @@ type lcCfg struct {
 	HttpNotify  bool     `json:"httpNotify"`  // notifications through lal's own HttpNotify worker to a stub web hook
 	WirePubs    []string `json:"wirePubs"`    // RTMP publishers on real loopback connections served by the server's own routine
 	HlsSubs     []string `json:"hlsSubs"`     // HLS subscribers (sessions keyed by session_id, see lifecycle_hls.go)
+	HlsSettle   bool     `json:"hlsSettle"`   // HlsBlacklist waits for a sweep of the HLS handler before it reports
+	Players     []string `json:"players"`     // RTSP players that stay (at most one): which description does the stream hand out
 	PullRtsp    bool     `json:"pullRtsp"`    // the relay pull goes to an rtsp:// origin (over TCP), see lifecycle_rtsporigin.go
 }
 
@@ -140,6 +143,9 @@ type lcSession struct {
 	sent   uint64              // wire publisher: bytes written by the client after the publish
 	keep   *[]byte             // rtsp: everything the peer has written so far (when set)
 	wbase  uint64              // wire publisher: bytes the server session had read when the publish was accepted
+	psConn net.Conn            // GB28181 input in TCP mode: the device's connection to the port lal listens on
+	psGone bool                // GB28181 input: the session has ended (kick)
+	psSeq  proj.SfPstSeq       // GB28181 input: numbers the RTP packets of the device
 }
 
 type nullRtspObserver struct{}
@@ -414,6 +420,9 @@ func runLifecycleScenario(sc *lcScenario, emitEv func(M)) {
 			return "pull"
 		}
 		if strings.HasPrefix(id, base.UkPreRtspSubSession) {
+			if len(sc.Cfg.Players) > 0 {
+				return sc.Cfg.Players[0]
+			}
 			return "player" // the RTSP player of a Describe step
 		}
 		return "?" + id
@@ -518,6 +527,17 @@ func runLifecycleScenario(sc *lcScenario, emitEv func(M)) {
 		return BuildMsg(&AMsg{Id: i, T: "ash", Ha: 1}, 0, uint32(i*10))
 	}
 
+	// the RTSP player that stays: its connection, everything it has received so far, whose description that is
+	var player *lcSession
+	var playerGot []byte
+	playerDesc := func() string {
+		if player == nil {
+			return ""
+		}
+		b, _ := player.conn.Drain()
+		playerGot = append(playerGot, b...)
+		return lcSdpOwner(playerGot)
+	}
 	tick := uint32(0)
 	sweeps := uint32(0)
 	lastHow, lastK := "", 0
@@ -554,6 +574,9 @@ func runLifecycleScenario(sc *lcScenario, emitEv func(M)) {
 				}
 				listed = append(listed, n)
 			}
+		}
+		if len(sc.Cfg.Players) > 0 {
+			ev["desc"] = M{sc.Cfg.Players[0]: playerDesc()}
 		}
 		ev["stat"] = M{"exists": st != nil, "listed": listed, "pull": st != nil && st.StatPull.SessionId != ""}
 		if len(targets) > 0 {
@@ -634,7 +657,7 @@ func runLifecycleScenario(sc *lcScenario, emitEv func(M)) {
 				}}, rtsp.ServerAuthConfig{})
 				s.done = make(chan struct{})
 				go func() { srv.VerifHandleTcpConnect(s.conn); close(s.done) }()
-				sdpBody := "v=0\r\no=- 0 0 IN IP4 127.0.0.1\r\ns=x\r\nc=IN IP4 127.0.0.1\r\nt=0 0\r\nm=video 0 RTP/AVP 96\r\n" +
+				sdpBody := "v=0\r\no=- 0 0 IN IP4 127.0.0.1\r\ns=pub-" + x + "\r\nc=IN IP4 127.0.0.1\r\nt=0 0\r\nm=video 0 RTP/AVP 96\r\n" +
 					"a=rtpmap:96 H264/90000\r\na=fmtp:96 packetization-mode=1\r\na=control:streamid=0\r\n"
 				req := fmt.Sprintf("ANNOUNCE rtsp://127.0.0.1/live/%s RTSP/1.0\r\nCSeq: 1\r\nContent-Type: application/sdp\r\nContent-Length: %d\r\n\r\n%s",
 					stream, len(sdpBody), sdpBody)
@@ -668,6 +691,11 @@ func runLifecycleScenario(sc *lcScenario, emitEv func(M)) {
 				if err != base.ErrDupInStream {
 					ret = "err"
 				}
+			}
+			if ret == "ok" && kind == "rtspPub" && player != nil && playerDesc() == "" {
+				// lal hands the description of an accepted RTSP publisher to the group from a goroutine of its own: a
+				// parked player is answered a moment later
+				waitFor(time.Second, func() bool { return playerDesc() != "" })
 			}
 			emit("NewPub", x, ret)
 		case "DelPub":
@@ -717,6 +745,26 @@ func runLifecycleScenario(sc *lcScenario, emitEv func(M)) {
 				ret = "dup"
 			} else {
 				s := &lcSession{kind: kind, key: resp.Data.SessionId, psPort: resp.Data.Port}
+				if sc.Sc%2 == 1 {
+					// TCP mode: the device connects (and stays idle); when the session ends on lal's side the device
+					// must see its connection closed
+					if c, err := net.DialTimeout("tcp", fmt.Sprintf("127.0.0.1:%d", s.psPort), 2*time.Second); err == nil {
+						s.psConn = c
+						// the device says hello with a packet that carries a pack header and nothing else (no media); once
+						// lal has counted its bytes the connection is the one the session serves (accepted, reader running)
+						s.psSeq.N++
+						hello := proj.SfPstExact(proj.SfRtpDatagram("ok", 0, true, 96, s.psSeq.N, 0, 0x33333333, proj.SfPsElem("pack", "ok", 0)))
+						_, _ = c.Write(hello)
+						if !waitFor(2*time.Second, func() bool {
+							sg := sm.StatGroup(stream)
+							return sg != nil && sg.StatPub.SessionId == s.key && sg.StatPub.ReadBytesSum > 0
+						}) {
+							ret = "noserve"
+						}
+					} else {
+						ret = "noconnect"
+					}
+				}
 				register(x, s)
 			}
 			emit("StartPs", x, ret)
@@ -796,6 +844,39 @@ func runLifecycleScenario(sc *lcScenario, emitEv func(M)) {
 			}
 			lastHow = st.How
 			emit("HlsPoll", x, ret)
+		case "PlayerAsk":
+			// an RTSP player on its own connection, served by the real per-connection routine: DESCRIBE, then OPTIONS
+			// as a barrier - when that is answered the DESCRIBE has been answered or the player is parked
+			player = &lcSession{kind: "rtspPlayer", conn: NewMemConn(x), done: make(chan struct{})}
+			playerGot = nil
+			psrv := rtsp.NewServer("127.0.0.1:0", &lcRtspObserver{sm: sm, onPub: func(p *rtsp.PubSession) {}}, rtsp.ServerAuthConfig{})
+			go func(pc *lcSession) { psrv.VerifHandleTcpConnect(pc.conn); close(pc.done) }(player)
+			player.conn.Feed([]byte("DESCRIBE rtsp://127.0.0.1/live/" + stream + " RTSP/1.0\r\nCSeq: 1\r\nAccept: application/sdp\r\n\r\n"))
+			player.cseq = 1
+			player.keep = &playerGot
+			lcRtspRequest(player, "OPTIONS rtsp://127.0.0.1/live/"+stream+" RTSP/1.0\r\n")
+			ret := "wait"
+			if d := playerDesc(); d != "" {
+				ret = "sdp:" + d
+			}
+			emit("PlayerAsk", x, ret)
+		case "PlayerBye":
+			if player != nil {
+				playerDesc()
+				player.conn.Close()
+				select {
+				case <-player.done:
+				case <-time.After(3 * time.Second):
+				}
+				player = nil
+			}
+			emit("PlayerBye", x, "ok")
+		case "HlsBlacklist":
+			ret := "nohls"
+			if hls != nil {
+				ret = hls.blacklist(x, sc.Cfg.HlsSettle)
+			}
+			emit("HlsBlacklist", x, ret)
 		case "HlsLinger":
 			// longer than the timeout plus the sweep period, while the clients keep asking
 			time.Sleep(time.Duration(lcHlsTimeoutMs)*time.Millisecond + 1150*time.Millisecond)
@@ -845,6 +926,12 @@ func runLifecycleScenario(sc *lcScenario, emitEv func(M)) {
 					g := sm.GetGroup("", stream)
 					return g == nil || g.VerifSnapshot()["psPub"] == false
 				})
+				if s := sess[x]; s != nil {
+					s.psGone = true
+					if s.psConn != nil && !lcPeerClosed(s.psConn, 2*time.Second) {
+						ret = "connopen" // the session is gone but the device's connection is still served
+					}
+				}
 			}
 			emit("Kick", x, ret)
 		case "Probe":
@@ -859,6 +946,12 @@ func runLifecycleScenario(sc *lcScenario, emitEv func(M)) {
 			skind := ""
 			if s != nil {
 				skind = s.kind
+			}
+			if skind == "psPub" && s.psGone {
+				// the device of a GB28181 input that has ended goes on sending: well-formed access units (key frames) on
+				// the connection it had (TCP mode)
+				lcPsStaleSend(s)
+				msgs = nil
 			}
 			for _, msg := range msgs {
 				switch skind {
@@ -917,7 +1010,7 @@ func runLifecycleScenario(sc *lcScenario, emitEv func(M)) {
 				u := "rtsp://127.0.0.1/live/" + stream
 				s.cseq++
 				if st.How == "announce" {
-					sdpBody := "v=0\r\no=- 0 0 IN IP4 127.0.0.1\r\ns=x\r\nc=IN IP4 127.0.0.1\r\nt=0 0\r\nm=video 0 RTP/AVP 96\r\n" +
+					sdpBody := "v=0\r\no=- 0 0 IN IP4 127.0.0.1\r\ns=pub-" + x + "\r\nc=IN IP4 127.0.0.1\r\nt=0 0\r\nm=video 0 RTP/AVP 96\r\n" +
 						"a=rtpmap:96 H264/90000\r\na=fmtp:96 packetization-mode=1\r\na=control:streamid=0\r\n"
 					s.conn.Feed([]byte(fmt.Sprintf("ANNOUNCE %s RTSP/1.0\r\nCSeq: %d\r\nContent-Type: application/sdp\r\nContent-Length: %d\r\n\r\n%s",
 						u, s.cseq, len(sdpBody), sdpBody)))
@@ -1142,6 +1235,15 @@ func runLifecycleScenario(sc *lcScenario, emitEv func(M)) {
 					waitPullNotif()
 				}
 			}
+			// the connection of a GB28181 device in TCP mode is one of the server's connections, too
+			for _, s := range sess {
+				if s.kind == "psPub" && s.psConn != nil && !s.psGone {
+					s.psGone = true
+					if !lcPeerClosed(s.psConn, 2*time.Second) {
+						ret = "connopen"
+					}
+				}
+			}
 			emit("Shutdown", "", ret)
 		case "Advance":
 			time.Sleep(time.Duration(autoMs)*time.Millisecond + 60*time.Millisecond)
@@ -1164,6 +1266,9 @@ func runLifecycleScenario(sc *lcScenario, emitEv func(M)) {
 		_ = x
 		if s.kind == "psPub" {
 			sm.CtrlKickSession(base.ApiCtrlKickSessionReq{StreamName: stream, SessionId: s.key})
+			if s.psConn != nil {
+				s.psConn.Close()
+			}
 		}
 	}
 	time.Sleep(time.Millisecond)
